@@ -176,13 +176,26 @@ CHECKS['C04'] = {
     'technique': 'Hypothesis-generated histories on a cluster simulator, per-request differential oracle',
 }
 
+CHECKS['C10'] = {
+    'engine': 'E1-clustersim',
+    'category': 'exploration',
+    'text': ('Generated cluster episodes with requests swallowed by the target, repeated BACKOFF, spawn errors, slow / '
+             'TERM-ignoring / unkillable children, dropped PROCESS publications, loss of the target at any point, concurrent '
+             'start / stop / restart requests; per instance and Commander the number of local ticks with a job reported in '
+             'progress after the last request is bounded by B computed from the configuration (reported), forced states '
+             'carry a reason, and no job is reported after the quiet suffix. Bounded-liveness form on the virtual clock.'),
+    'design_ref': 'DESIGN.md 5/C10',
+    'note': CLUSTER_NOTE,
+    'technique': 'Hypothesis-generated loss/fault histories on a cluster simulator, bounded-liveness counter per job',
+}
+
 HOOK_COMMITS = []
 
 ENGINES = [
     {'name': 'E1-clustersim', 'path': 'clustersim/', 'kind_free_text':
         'deterministic cluster simulator: N real Supvisors instances in one process on a fake OS / network / clock; '
         'Hypothesis generates configuration and history; per-property monitors',
-     'serves_properties': ['C01', 'C02', 'C04', 'C07', 'C08', 'C12', 'C14', 'C16']},
+     'serves_properties': ['C01', 'C02', 'C04', 'C07', 'C08', 'C10', 'C12', 'C14', 'C16']},
     {'name': 'E3-solo', 'path': 'clustersim/solo.py', 'kind_free_text':
         'one real instance with puppet peers / pure component harnesses driven by Hypothesis',
      'serves_properties': ['C11', 'C15', 'C18', 'C20']},
@@ -190,5 +203,5 @@ ENGINES = [
 
 _PENDING = 'check not built yet in this round (the technique applies; see DESIGN.md section 5)'
 NOT_APPLICABLE = {pid: _PENDING for pid in
-                  ['C03', 'C05', 'C06', 'C09', 'C10', 'C13',
+                  ['C03', 'C05', 'C06', 'C09', 'C13',
                    'C17', 'C19']}
